@@ -1,6 +1,7 @@
 package main
 
 import (
+	"path/filepath"
 	"fmt"
 	"go/types"
 	"runtime/debug"
@@ -138,6 +139,30 @@ func (e *Engine) verifyFunc(key string) (vc *VC, err error) {
 		e.exitInvariants(fr, names)
 	}
 	vc.covers = append(vc.covers, &Obl{Name: "returns/cover", Kind: "cover", Guard: orReach(fr.rets), Formula: "true", NFacts: len(vc.facts), Func: key, Pos: e.fset.Position(fn.Pos())})
+	// one cover per distinct reachability guard that carries an obligation: an
+	// obligation behind an unsatisfiable guard is discharged vacuously (e.g. a
+	// contract of a callee that forgets an effect can make the rest of the
+	// function unreachable).  Code that is dead on purpose is declared with
+	// `attr dead-ok <n>` (number of such guards) in the contract.
+	seenG := map[string]*Obl{}
+	var order []string
+	for _, o := range vc.obls {
+		if o.Static != "" || o.Guard == "true" || o.Guard == "" {
+			continue
+		}
+		if c0, ok := seenG[o.Guard]; ok {
+			if o.NFacts > c0.NFacts {
+				c0.NFacts = o.NFacts
+			}
+			continue
+		}
+		cv := &Obl{Name: fmt.Sprintf("reach/cover#%d (%s:%d, first obligation %s)", len(order)+1, filepath.Base(o.Pos.Filename), o.Pos.Line, o.Name), Kind: "cover", Guard: o.Guard, Formula: "true", NFacts: o.NFacts, Func: key, Pos: o.Pos}
+		seenG[o.Guard] = cv
+		order = append(order, o.Guard)
+	}
+	for _, g := range order {
+		vc.covers = append(vc.covers, seenG[g])
+	}
 	return vc, nil
 }
 
